@@ -83,6 +83,18 @@ def _one_step(step, k, sc, model, current, prior, evs, n, sig):
                 lst = [_mk_cond(c, i) for i, c in current.items()]
                 evs.append(_comp_event("alt", compile_alt(prior, lst)))
                 evs.append(_comp_event("fast", compile_alt_fast(prior, lst)))
+            elif k == "crevfront":
+                from inference.c_revision import c_revision_pareto_front
+
+                lst = [_mk_cond(c, i) for i, c in current.items()]
+                if not lst or len(lst) > 3:
+                    return
+                sols = impl.with_limit(120, c_revision_pareto_front, prior, lst, gamma_plus_zero=True, max_solutions=200)
+                vecs_ = []
+                for sol in sols:
+                    vecs_.append([[int(key[7:]), int(val)] for key, val in sol.items() if key.startswith("gamma-_") and int(key[7:]) in current])
+                mx = max([v for vec in vecs_ for _, v in vec] + [0])
+                evs.append({"ev": "crevfront", "vectors": vecs_, "bound": min(max(max(sc["prior"]) + (1 << max(0, len(lst) - 1)), mx) + 1, 7)})
             elif k == "crev":
                 _, plus_zero, fixp, fixm, use_model = step
                 fixp = {i: v for i, v in fixp.items() if i in current}
@@ -157,6 +169,8 @@ def gen_scenario(rng, tier):
         if fixp and len(live) > 1 and rng.random() < 0.3:
             fixp[pick()] = rng.choice([0, 1])
         ops.append(["crev", plus_zero, fixp, fixm, rng.random() < 0.5])
+    if rng.random() < 0.35:
+        ops.append(["crevfront"])
     return {"sig": sig, "prior": prior, "cands": cands, "ops": ops}
 
 
@@ -173,7 +187,7 @@ def run(chk: Check, tier: str):
                  "ops": [["add", 1, 0], ["add", 2, 1], ["compile"], ["crev", True, {}, {1: 2}, False]]})
     results = infer.pool_map(_exec_rev, scen, chunksize=2)
     traces, keep = [], []
-    cnt = {"crev_ok": 0, "crev_none": 0, "crev_error": 0, "compile_events": 0}
+    cnt = {"crev_ok": 0, "crev_none": 0, "crev_error": 0, "compile_events": 0, "crev_fronts": 0}
     for r in results:
         if r["error"]:
             machinery_failure(r["error"])
@@ -185,6 +199,8 @@ def run(chk: Check, tier: str):
                 cnt["crev_" + e["result"]] += 1
             elif e["ev"] == "compile":
                 cnt["compile_events"] += 1
+            elif e["ev"] == "crevfront":
+                cnt["crev_fronts"] += 1
         if any(e["ev"] == "crev" for e in r["events"]):
             chk.nontrivial([r["sc"]["prior"], [M.render_cond(*c) for c in r["sc"]["cands"]], json.dumps(r["sc"]["ops"], default=str)])
     chk.cov.update(cnt)
